@@ -182,14 +182,19 @@ Inductive step_shape (P : policies) (id : identity) (s : store) (ph : option str
 | ShPostFail : forall h ld, handler_of (r_op r) = Some h -> run_sites P id s ph r (h_sites h) = inr ld ->
     step_shape P id s ph r OPostFail (s, ph)
 | ShDelete : forall h ld o rest, handler_of (r_op r) = Some h -> run_sites P id s ph r (h_sites h) = inr ld ->
-    l_objs ld = o :: rest ->
+    l_objs ld = o :: rest -> (0 < h_direct_queries h)%nat ->
     step_shape P id s ph r (OSuccess []) ({| objs := remove_uid (o_uid o) (objs s); dead := o_uid o :: dead s |}, ph)
 | ShAdd : forall h ld s' ph', handler_of (r_op r) = Some h -> run_sites P id s ph r (h_sites h) = inr ld ->
     add_all s (id_user id) (r_new r) = Some s' -> (0 < h_adds h)%nat ->
     step_shape P id s ph r (OSuccess (map new_uid (r_new r))) (s', ph')
 | ShPlain : forall h ld, handler_of (r_op r) = Some h -> run_sites P id s ph r (h_sites h) = inr ld ->
     h_adds h = 0%nat -> h_direct_queries h = 0%nat ->
-    step_shape P id s ph r (OSuccess (located ld r)) (s, ph).
+    step_shape P id s ph r (OSuccess (located ld r)) (s, ph)
+| ShUpdate : forall h ld o rest c, handler_of (r_op r) = Some h -> run_sites P id s ph r (h_sites h) = inr ld ->
+    h_adds h = 0%nat -> h_direct_queries h = 0%nat ->
+    l_objs ld = o :: rest -> In (r_op r) mutating_ops ->
+    step_shape P id s ph r (OSuccess (located ld r))
+               ({| objs := set_content (o_uid o) c (objs s); dead := dead s |}, ph).
 
 Lemma step_item_shape : forall P id s ph r,
   step_shape P id s ph r (fst (step_item P id (s, ph) r)) (snd (step_item P id (s, ph) r)).
@@ -204,11 +209,17 @@ Proof.
   - destruct (negb (r_post_ok r)); [simpl; eapply ShPostFail; eauto|].
     destruct (Nat.ltb 0 (h_direct_queries h)) eqn:Eq.
     + destruct (l_objs ld) as [|o rest] eqn:El; [now constructor|]. simpl. eapply ShDelete; eauto.
+      now apply Nat.ltb_lt in Eq.
     + destruct (Nat.ltb 0 (h_adds h)) eqn:Ea.
       * destruct (Nat.eqb (List.length (r_new r)) (h_adds h) && Nat.eqb (h_owner_assignments h) (h_adds h)); [|now constructor].
         destruct (add_all s (id_user id) (r_new r)) as [s'|] eqn:Eadd; [|now constructor].
         simpl. eapply ShAdd; eauto. now apply Nat.ltb_lt in Ea.
-      * simpl. apply Nat.ltb_ge in Eq. apply Nat.ltb_ge in Ea. eapply ShPlain; eauto; lia.
+      * apply Nat.ltb_ge in Eq. apply Nat.ltb_ge in Ea.
+        destruct (existsb (Z.eqb (r_op r)) mutating_ops) eqn:Em; [|simpl; eapply ShPlain; eauto; lia].
+        destruct (l_objs ld) as [|o rest] eqn:El; [simpl; eapply ShPlain; eauto; lia|].
+        destruct (r_upd r) as [c|]; [|simpl; eapply ShPlain; eauto; lia].
+        simpl. eapply ShUpdate; eauto; try lia.
+        apply existsb_exists in Em. destruct Em as [x [Hin Hx]]. apply Z.eqb_eq in Hx. now subst.
 Qed.
 
 (* ------------------------------------------------------------------ no effect, no disclosure without a grant *)
@@ -277,12 +288,36 @@ Proof.
     inversion He; subst. destruct Heff as [H|[H|H]]; [now elim H|now elim H|congruence].
 Qed.
 
+Lemma set_content_uids : forall u c l, map o_uid (set_content u c l) = map o_uid l.
+Proof.
+  intros u c l. induction l as [|a l IH]; simpl; [reflexivity|]. rewrite IH.
+  destruct (String.eqb (o_uid a) u); reflexivity.
+Qed.
+
+Lemma set_content_other : forall u c l o, In o l -> o_uid o <> u -> In o (set_content u c l).
+Proof.
+  intros u c l o Hin Hne. unfold set_content. apply in_map_iff. exists o. split; [|exact Hin].
+  destruct (String.eqb (o_uid o) u) eqn:E; [apply String.eqb_eq in E; contradiction|reflexivity].
+Qed.
+
+Lemma set_content_acl : forall u c l o', In o' (set_content u c l) -> exists o, In o l /\ same_acl o o'.
+Proof.
+  intros u c l o' Hin. unfold set_content in Hin. apply in_map_iff in Hin. destruct Hin as [o [He Hin]].
+  exists o. split; [exact Hin|]. destruct (String.eqb (o_uid o) u); subst; unfold same_acl; simpl; auto.
+Qed.
+
+Lemma set_content_acl_fwd : forall u c l o, In o l -> exists o', In o' (set_content u c l) /\ same_acl o o'.
+Proof.
+  intros u c l o Hin. eexists. split; [unfold set_content; apply in_map; exact Hin|].
+  destruct (String.eqb (o_uid o) u); unfold same_acl; simpl; auto.
+Qed.
+
 Lemma add_all_keeps : forall ns s w s' o, add_all s w ns = Some s' -> In o (objs s) -> In o (objs s').
 Proof.
   induction ns as [|n t IH]; intros s w s' o Hadd Hin; simpl in Hadd.
   - inversion Hadd; now subst.
   - destruct (add_new s w n) as [s1|] eqn:E1; [|discriminate].
-    eapply IH; [exact Hadd|]. unfold add_new in E1. destruct n as [[u t0] p].
+    eapply IH; [exact Hadd|]. unfold add_new in E1. destruct n as [[[u t0] p] c0].
     destruct (fresh s u); [|discriminate]. inversion E1; subst. simpl. apply in_or_app. now left.
 Qed.
 
@@ -308,7 +343,49 @@ Proof.
     + left. simpl. unfold remove_uid. apply filter_In. split; [exact Hin|]. now rewrite E.
   - (* add *)
     left. eapply add_all_keeps; eauto.
+  - (* update of the primary object's content *)
+    destruct (String.eqb (o_uid o) (o_uid o0)) eqn:E.
+    + right. apply String.eqb_eq in E.
+      match goal with Hr : run_sites _ _ _ _ _ _ = inr ?ld, Hl : l_objs ?ld = _ |- _ =>
+        destruct (run_sites_inr _ _ _ _ _ _ _ Hr) as [_ [A _]];
+        destruct (A o0) as [src [g [op [u [Hs [Hu [Hf Hal]]]]]]]; [rewrite Hl; now left|] end.
+      destruct (find_obj_some _ _ _ Hf) as [Hin0 Hu0].
+      assert (o = o0) by (eapply nodup_map_inj; eauto). subst o0.
+      exists op. split; [|exact Hal]. exists h, src, g, u. auto.
+    + left. simpl. apply set_content_other; [exact Hin|]. now apply String.eqb_neq.
 Qed.
+
+(* a request that fails changes nothing at all (rows, contents, ID placeholder) *)
+Lemma failure_changes_nothing_l : forall P id s ph r out st',
+  step_item P id (s, ph) r = (out, st') -> is_failure out = true -> st' = (s, ph).
+Proof.
+  intros P id s ph r out st' Hstep Hf.
+  pose proof (step_item_shape P id s ph r) as Sh. rewrite Hstep in Sh. simpl in Sh.
+  inversion Sh; subst; try reflexivity; simpl in Hf; discriminate.
+Qed.
+
+(* THE FRAME over the whole attribute state: after any request item, an object of the store is there unchanged
+   (all columns and its whole content), unless the item succeeded, is an attribute-writing operation or Destroy,
+   and the object is one the item loaded under a grant *)
+Lemma content_frame_l : forall P id s ph r out s' ph',
+  wf_store s ->
+  step_item P id (s, ph) r = (out, (s', ph')) ->
+  forall o, In o (objs s) ->
+  In o (objs s') \/
+  (is_failure out = false /\
+   (In (r_op r) mutating_ops \/ exists h, handler_of (r_op r) = Some h /\ (0 < h_direct_queries h)%nat) /\
+   exists op, addressed r ph s o op /\ allowed_obj P id op o = true).
+Proof.
+  intros P id s ph r out s' ph' [Hnd Hd] Hstep o Hin.
+  pose proof (step_item_shape P id s ph r) as Sh. rewrite Hstep in Sh. simpl in Sh.
+  destruct (only_addressed_objects_change_l _ _ _ _ _ _ _ _ (conj Hnd Hd) Hstep o Hin) as [Hl|Hr]; [now left|].
+  inversion Sh; subst; auto;
+    try (left; eapply add_all_keeps; eauto; fail);
+    right; (split; [reflexivity|]); (split; [|exact Hr]);
+    first [now left | right; eexists; split; eassumption].
+Qed.
+
+
 
 (* Locate (and any handler that only lists) answers with permitted objects only *)
 Lemma listed_only_permitted_l : forall P id s ph r ids st' h,
@@ -329,72 +406,99 @@ Proof.
     { unfold located in Hin. destruct (r_match r); [apply filter_In in Hin; tauto|exact Hin]. }
     apply in_map_iff in Hin'. destruct Hin' as [o [Hu Ho]].
     destruct (A _ Ho) as [Hos [op [Hs Hal]]]. exists o, op. auto.
+  - assert (h0 = h) by congruence. subst.
+    match goal with Hr : run_sites _ _ _ _ _ _ = inr ?ld |- _ =>
+      destruct (run_sites_inr _ _ _ _ _ _ _ Hr) as [_ [_ A]] end.
+    assert (Hin' : In u (map o_uid (l_listed ld))).
+    { unfold located in Hin. destruct (r_match r); [apply filter_In in Hin; tauto|exact Hin]. }
+    apply in_map_iff in Hin'. destruct Hin' as [o1 [Hu Ho]].
+    destruct (A _ Ho) as [Hos [op [Hs Hal]]]. exists o1, op. auto.
 Qed.
 
 (* ------------------------------------------------------------------ invariants over histories *)
 
-(* s' extends s: every row of s is still there unchanged or its identifier is dead; dead stays dead *)
+Lemma same_acl_refl : forall o, same_acl o o.
+Proof. intro o. unfold same_acl. auto. Qed.
+
+Lemma same_acl_trans : forall a b c, same_acl a b -> same_acl b c -> same_acl a c.
+Proof. unfold same_acl. intros a b c [A1 [A2 [A3 A4]]] [B1 [B2 [B3 B4]]]. repeat split; congruence. Qed.
+
+(* s' extends s: every row of s is still there with the same access-control columns (its content may have been
+   rewritten) or its identifier is dead; dead stays dead *)
 Definition ext (s s' : store) : Prop :=
-  (forall o, In o (objs s) -> In o (objs s') \/ In (o_uid o) (dead s')) /\
+  (forall o, In o (objs s) -> (exists o', In o' (objs s') /\ same_acl o o') \/ In (o_uid o) (dead s')) /\
   (forall u, In u (dead s) -> In u (dead s')).
 
+(* where the rows of s' come from: a row of s with the same access-control columns, or created by w *)
+Definition origin (w : user) (s s' : store) : Prop :=
+  forall o', In o' (objs s') ->
+    (exists o, In o (objs s) /\ same_acl o o') \/ (o_owner o' = w /\ ~ In (o_uid o') (uids s)).
+
 Lemma ext_refl : forall s, ext s s.
-Proof. intro s. split; auto. Qed.
+Proof. intro s. split; auto. intros o Hin. left. exists o. split; [exact Hin|apply same_acl_refl]. Qed.
+
+Lemma origin_refl : forall w s, origin w s s.
+Proof. intros w s o Hin. left. exists o. split; [exact Hin|apply same_acl_refl]. Qed.
 
 Lemma ext_trans : forall a b c, ext a b -> ext b c -> ext a c.
 Proof.
   intros a b c [A1 A2] [B1 B2]. split; [|auto].
-  intros o Hin. destruct (A1 _ Hin) as [H|H]; [auto|right; auto].
+  intros o Hin. destruct (A1 _ Hin) as [[o1 [H1 S1]]|H]; [|right; auto].
+  destruct (B1 _ H1) as [[o2 [H2 S2]]|H].
+  - left. exists o2. split; [exact H2|eapply same_acl_trans; eauto].
+  - right. destruct S1 as [E _]. now rewrite E.
+Qed.
+
+(* composing origins needs to know that identifiers of s that are no longer rows of the middle store are dead there *)
+Lemma origin_trans : forall w a b c,
+  wf_store c -> ext a b -> ext b c -> origin w a b -> origin w b c -> origin w a c.
+Proof.
+  intros w a b c [_ Wd] [X1 _] [X2a X2] O1 O2 o' Hin.
+  destruct (O2 _ Hin) as [[o1 [H1 S1]]|[Hw Hn]].
+  - destruct (O1 _ H1) as [[o0 [H0 S0]]|[Hw0 Hn0]].
+    + left. exists o0. split; [exact H0|eapply same_acl_trans; eauto].
+    + right. destruct S1 as [E [_ [Eo _]]]. split; [congruence|]. now rewrite <- E.
+  - right. split; [exact Hw|]. intro Hu. unfold uids in Hu. apply in_map_iff in Hu.
+    destruct Hu as [o0 [Hu0 Hin0]]. destruct (X1 _ Hin0) as [[o1 [H1 [E _]]]|Hk].
+    + apply Hn. unfold uids. rewrite <- Hu0, E. now apply in_map.
+    + apply (Wd _ (X2 _ Hk)). rewrite Hu0. unfold uids. now apply in_map.
 Qed.
 
 Lemma add_new_props : forall s w n s',
-  wf_store s -> add_new s w n = Some s' ->
-  wf_store s' /\ ext s s' /\
-  (forall o, In o (objs s') -> In o (objs s) \/ (o_owner o = w /\ ~ In (o_uid o) (uids s) /\ o_uid o = new_uid n)).
+  wf_store s -> add_new s w n = Some s' -> wf_store s' /\ ext s s' /\ origin w s s'.
 Proof.
-  intros s w [[u t] p] s' [Hnd Hdead] H. unfold add_new in H.
+  intros s w [[[u t] p] c] s' [Hnd Hdead] H. unfold add_new in H.
   destruct (fresh s u) eqn:Ef; [|discriminate]. inversion H; subst; clear H.
   unfold fresh in Ef. apply andb_true_iff in Ef. destruct Ef as [F1 F2].
   apply negb_true_iff in F1, F2. apply mem_false_iff in F1, F2.
   split; [|split].
   - split; unfold uids in *; simpl.
-    + rewrite map_app. simpl.
-      apply nodup_snoc; assumption.
+    + rewrite map_app. simpl. apply nodup_snoc; assumption.
     + intros v Hv. rewrite map_app, in_app_iff. simpl. intros [Hin|[<-|[]]]; [eapply Hdead; eauto|contradiction].
-  - split; simpl; auto. intros o Hin. left. apply in_or_app. now left.
-  - simpl. intros o Hin. apply in_app_or in Hin. destruct Hin as [Hin|[<-|[]]]; [now left|right]. simpl. auto.
+  - split; simpl; auto. intros o Hin. left. exists o. split; [apply in_or_app; now left|apply same_acl_refl].
+  - intros o Hin. simpl in Hin. apply in_app_or in Hin. destruct Hin as [Hin|[<-|[]]].
+    + left. exists o. split; [exact Hin|apply same_acl_refl].
+    + right. simpl. auto.
 Qed.
 
 Lemma add_all_props : forall ns s w s',
-  wf_store s -> add_all s w ns = Some s' ->
-  wf_store s' /\ ext s s' /\
-  (forall o, In o (objs s') -> In o (objs s) \/ (o_owner o = w /\ ~ In (o_uid o) (uids s))).
+  wf_store s -> add_all s w ns = Some s' -> wf_store s' /\ ext s s' /\ origin w s s'.
 Proof.
   induction ns as [|n t IH]; intros s w s' Hwf H; simpl in H.
-  - inversion H; subst. split; [exact Hwf|]. split; [apply ext_refl|auto].
+  - inversion H; subst. split; [exact Hwf|]. split; [apply ext_refl|apply origin_refl].
   - destruct (add_new s w n) as [s1|] eqn:E1; [|discriminate].
     destruct (add_new_props _ _ _ _ Hwf E1) as [W1 [X1 O1]].
     destruct (IH _ _ _ W1 H) as [W2 [X2 O2]].
-    split; [exact W2|]. split; [eapply ext_trans; eauto|].
-    intros o Hin. destruct (O2 _ Hin) as [Hin1|[Hw Hn]].
-    + destruct (O1 _ Hin1) as [?|[? [? ?]]]; auto.
-    + right. split; [exact Hw|]. intro Hu. apply Hn.
-      unfold uids in *. apply in_map_iff in Hu. destruct Hu as [o0 [Hu0 Hin0]].
-      destruct X1 as [X1 _]. destruct (X1 _ Hin0) as [Hk|Hk].
-      * rewrite <- Hu0. now apply in_map.
-      * exfalso. destruct W1 as [_ Wd]. (* o0's uid dead in s1?  add_new never kills *)
-        unfold add_new in E1. destruct n as [[u t0] p]. destruct (fresh s u); [|discriminate].
-        inversion E1; subst. simpl in Hk. destruct Hwf as [_ Hd]. apply (Hd _ Hk). now apply in_map.
+    split; [exact W2|]. split; [eapply ext_trans; eauto|eapply origin_trans; eauto].
 Qed.
 
 Lemma step_item_invariant : forall P id s ph r out s' ph',
   wf_store s -> step_item P id (s, ph) r = (out, (s', ph')) ->
-  wf_store s' /\ ext s s' /\
-  (forall o, In o (objs s') -> In o (objs s) \/ (o_owner o = id_user id /\ ~ In (o_uid o) (uids s))).
+  wf_store s' /\ ext s s' /\ origin (id_user id) s s'.
 Proof.
   intros P id s ph r out s' ph' Hwf Hstep.
   pose proof (step_item_shape P id s ph r) as Sh. rewrite Hstep in Sh. simpl in Sh.
-  inversion Sh; subst; try (split; [exact Hwf|split; [apply ext_refl|auto]]).
+  inversion Sh; subst; try (split; [exact Hwf|split; [apply ext_refl|apply origin_refl]]).
   - (* delete *)
     destruct Hwf as [Hnd Hdead]. split; [|split].
     + split; unfold uids in *; simpl.
@@ -404,42 +508,37 @@ Proof.
         -- eapply Hdead; eauto.
     + split; simpl; [|auto]. intros o1 Hin. destruct (String.eqb (o_uid o1) (o_uid o)) eqn:E.
       * right. left. apply String.eqb_eq in E. now rewrite E.
-      * left. apply filter_In. split; [exact Hin|]. now rewrite E.
-    + simpl. intros o1 Hin. apply filter_In in Hin. tauto.
+      * left. exists o1. split; [|apply same_acl_refl]. apply filter_In. split; [exact Hin|]. now rewrite E.
+    + intros o1 Hin. simpl in Hin. apply filter_In in Hin. left. exists o1. split; [tauto|apply same_acl_refl].
   - (* add *)
     eapply add_all_props; eauto.
+  - (* update *)
+    destruct Hwf as [Hnd Hdead]. split; [|split].
+    + split; unfold uids in *; simpl; rewrite set_content_uids; assumption.
+    + split; simpl; [|auto]. intros o1 Hin. left. now apply set_content_acl_fwd.
+    + intros o1 Hin. simpl in Hin. left. now apply set_content_acl in Hin.
 Qed.
 
 Arguments step_item : simpl never.
 
 Lemma run_items_invariant : forall P id cont rs s ph outs s' ph',
   wf_store s -> run_items P id cont (s, ph) rs = (outs, (s', ph')) ->
-  wf_store s' /\ ext s s' /\
-  (forall o, In o (objs s') -> In o (objs s) \/ (o_owner o = id_user id /\ ~ In (o_uid o) (uids s))).
+  wf_store s' /\ ext s s' /\ origin (id_user id) s s'.
 Proof.
   induction rs as [|r t IH]; intros s ph outs s' ph' Hwf H; simpl in H.
-  - inversion H; subst. split; [exact Hwf|]. split; [apply ext_refl|auto].
+  - inversion H; subst. split; [exact Hwf|]. split; [apply ext_refl|apply origin_refl].
   - destruct (step_item P id (s, ph) r) as [out [s1 ph1]] eqn:E1.
     destruct (step_item_invariant _ _ _ _ _ _ _ _ Hwf E1) as [W1 [X1 O1]].
     destruct (is_failure out && negb cont).
     + inversion H; subst. auto.
     + destruct (run_items P id cont (s1, ph1) t) as [outs2 [s2 ph2]] eqn:E2.
       inversion H; subst. destruct (IH _ _ _ _ _ W1 E2) as [W2 [X2 O2]].
-      split; [exact W2|]. split; [eapply ext_trans; eauto|].
-      intros o Hin. destruct (O2 _ Hin) as [Hin1|[Hw Hn]].
-      * destruct (O1 _ Hin1) as [?|[? ?]]; auto.
-      * right. split; [exact Hw|]. intro Hu. unfold uids in Hu. apply in_map_iff in Hu.
-        destruct Hu as [o0 [Hu0 Hin0]]. destruct X1 as [X1 _]. destruct (X1 _ Hin0) as [Hk|Hk].
-        -- apply Hn. rewrite <- Hu0. unfold uids. now apply in_map.
-        -- (* the identifier is dead in s1, hence dead in s', but o lives in s' *)
-           destruct X2 as [_ X2]. destruct W2 as [_ Wd]. apply (Wd _ (X2 _ Hk)).
-           rewrite Hu0. unfold uids. now apply in_map.
+      split; [exact W2|]. split; [eapply ext_trans; eauto|eapply origin_trans; eauto].
 Qed.
 
 Lemma process_request_invariant : forall P s q outs s',
   wf_store s -> process_request P s q = (outs, s') ->
-  wf_store s' /\ ext s s' /\
-  (forall o, In o (objs s') -> In o (objs s) \/ (o_owner o = id_user (q_id q) /\ ~ In (o_uid o) (uids s))).
+  wf_store s' /\ ext s s' /\ origin (id_user (q_id q)) s s'.
 Proof.
   intros P s q outs s' Hwf H. unfold process_request in H.
   destruct (run_items P (q_id q) (q_cont q) (s, None) (q_items q)) as [outs1 [s1 ph1]] eqn:E.
@@ -461,14 +560,14 @@ Proof. split; [constructor|intros ? []]. Qed.
 Lemma reachable_wf : forall P h, wf_store (run P empty_store h).
 Proof. intros. apply run_invariant. apply wf_empty. Qed.
 
-(* a row never changes: same identifier later means the very same (type, owner, policy) *)
+(* the access-control columns of a row never change: same identifier later means same type, owner and policy *)
 Lemma rows_never_change_l : forall P h s o o',
-  wf_store s -> In o (objs s) -> In o' (objs (run P s h)) -> o_uid o' = o_uid o -> o' = o.
+  wf_store s -> In o (objs s) -> In o' (objs (run P s h)) -> o_uid o' = o_uid o -> same_acl o o'.
 Proof.
   intros P h s o o' Hwf Hin Hin' Hu.
   destruct (run_invariant P h s Hwf) as [[Hnd Hdead] [X _]].
-  destruct (X _ Hin) as [Hk|Hk].
-  - eapply nodup_map_inj; eauto.
+  destruct (X _ Hin) as [[o1 [H1 S1]]|Hk].
+  - assert (o1 = o') by (eapply nodup_map_inj; eauto; destruct S1 as [E _]; congruence). now subst.
   - exfalso. apply (Hdead _ Hk). rewrite <- Hu. unfold uids. now apply in_map.
 Qed.
 
@@ -477,13 +576,29 @@ Lemma owner_forever_l : forall P s q h o,
   wf_store s ->
   In o (objs (snd (process_request P s q))) -> ~ In (o_uid o) (uids s) ->
   o_owner o = id_user (q_id q) /\
-  forall o', In o' (objs (run P (snd (process_request P s q)) h)) -> o_uid o' = o_uid o -> o' = o.
+  forall o', In o' (objs (run P (snd (process_request P s q)) h)) -> o_uid o' = o_uid o -> same_acl o o'.
 Proof.
   intros P s q h o Hwf Hin Hnew.
   destruct (process_request P s q) as [outs s1] eqn:E. simpl in *.
   destruct (process_request_invariant _ _ _ _ _ Hwf E) as [W1 [_ O1]].
   split.
-  - destruct (O1 _ Hin) as [Hold|[Hw _]]; [|exact Hw].
-    exfalso. apply Hnew. unfold uids. now apply in_map.
+  - destruct (O1 _ Hin) as [[o0 [H0 [E0 _]]]|[Hw _]]; [|exact Hw].
+    exfalso. apply Hnew. unfold uids. rewrite <- E0. now apply in_map.
   - intros o' Hin' Hu. eapply rows_never_change_l; eauto.
+Qed.
+
+(* a request all of whose items fail changes nothing *)
+Lemma failed_items_change_nothing_l : forall P id cont rs s ph outs st',
+  run_items P id cont (s, ph) rs = (outs, st') ->
+  forallb is_failure outs = true -> st' = (s, ph).
+Proof.
+  induction rs as [|r t IH]; intros s ph outs st' H Hall; simpl in H.
+  - now inversion H.
+  - destruct (step_item P id (s, ph) r) as [out st1] eqn:E1.
+    destruct (is_failure out && negb cont) eqn:Eb.
+    + inversion H; subst. simpl in Hall. apply andb_true_iff in Hall. destruct Hall as [Hf _].
+      eapply failure_changes_nothing_l; eauto.
+    + destruct (run_items P id cont st1 t) as [outs2 st2] eqn:E2. inversion H; subst.
+      simpl in Hall. apply andb_true_iff in Hall. destruct Hall as [Hf Hrest].
+      rewrite (failure_changes_nothing_l _ _ _ _ _ _ _ E1 Hf) in E2. eapply IH; eauto.
 Qed.
